@@ -41,6 +41,8 @@ def instantiate(blocks, toks, v, rng):
     names = {}
     for i, b in enumerate(blocks, 1):
         names[i] = ("MX%d" % i) if b["kind"] == "m" else ("TB%d" % i)
+        if v.get("names"):
+            names[i] = v["names"][i - 1]
         exp["names"].append(names[i])
         exp["kinds"].append(1 if b["kind"] == "m" else 0)
         if b["kind"] == "m":
@@ -106,6 +108,64 @@ def instantiate(blocks, toks, v, rng):
     return toksb, exp, offs, len(header)
 
 
+def subsets_part(run, np, op2, res, files, variants, rng, quick):
+    """spec section 'Named subsets': rdop2mats(names) / rdmats(names) with exact names and prefix* patterns in any order return
+    exactly the data blocks some pattern matches, in file order (table exported by TLC for every two-matrix file x pattern list)"""
+    tab = res.tagged("SUBSETS")
+    if not tab:
+        raise RuntimeError("no SUBSETS export from TLC")
+    tab = tab[0][0]
+    two = [(b, t, D) for b, t, D in files if len(b) == 2 and all(x["kind"] == "m" for x in b)]
+    if not two:
+        raise RuntimeError("no two-matrix file among the exported OP2 files")
+    items = sorted(tab.items(), key=repr) if isinstance(tab, dict) else list(tab)
+    n = 0
+    for fi, (fnames, bylist) in enumerate(items):
+        blocks, toks, D = two[fi % len(two)]
+        v = dict(variants[(3 * fi) % len(variants)], names=["".join(x) for x in fnames])
+        toksb, exp, offs, nh = instantiate(blocks, toks, v, rng)
+        fd, path = tempfile.mkstemp(suffix=".op2", prefix="verif_")
+        os.write(fd, P2.render(toksb, v["endian"], v["ib"]))
+        os.close(fd)
+        try:
+            lists = sorted(bylist.items(), key=repr) if isinstance(bylist, dict) else list(bylist)
+            for li, (pl, want) in enumerate(lists):
+                if quick and (fi + li) % 3:
+                    continue
+                pats = ["".join(p_["pre"]) + ("*" if p_["wild"] else "") for p_ in pl]
+                want = ["".join(x) for x in want]
+                n += 1
+                run.case(("op2-subset", tuple(v["names"]), tuple(pats)), nontrivial=len(pats) > 1, part="op2 named subsets")
+                msg = None
+                try:
+                    o2 = op2.OP2(path)
+                    try:
+                        got = list(o2.rdop2mats(pats))
+                    finally:
+                        o2._fileh.close()
+                    got2 = list(op2.rdmats(path, pats))
+                    if got != want:
+                        msg = "rdop2mats(%r) on a file with %r returned %r, the patterns select %r" % (pats, v["names"], got, want)
+                    elif got2 != want:
+                        msg = "rdmats(%r) on a file with %r returned %r, the patterns select %r" % (pats, v["names"], got2, want)
+                    else:
+                        full = op2.rdmats(path)
+                        sub = op2.rdmats(path, pats)
+                        if any(not np.array_equal(sub[k], full[k]) for k in sub):
+                            msg = "a matrix read through the named subset %r differs from the full read" % (pats,)
+                except Exception as ex:
+                    msg = "named-subset read %r raised %r" % (pats, ex)
+                run.trace_validated()
+                if msg:
+                    run.violation("OP2 reader: " + msg, {"names": v["names"], "patterns": pats}, {"kind": "op2", "subset": True})
+                    if len(run.violations) > 6:
+                        return False
+        finally:
+            os.unlink(path)
+    run.extra["op2_named_subset_reads"] = n
+    return True
+
+
 def run_op2(run):
     import numpy as np
     import warnings
@@ -117,7 +177,7 @@ def run_op2(run):
         run.add_tlc("MC_Op2.cfg", res)
         run.violation("TLC: %s on the Op2 model" % res.violation, {"tlc": res.error_text()}, {"where": "model"})
         return
-    run.add_tlc("MC_Op2.cfg", res, "invariants DirTiles DecodeOK over all files of <= 2 blocks (12 matrix x 7 table block shapes)")
+    run.add_tlc("MC_Op2.cfg", res, "invariants DirTiles DecodeOK over all files of <= 2 blocks (12 matrix x 7 table block shapes); SubsetLaws over 20 two-block files x 81 pattern lists")
     files = res.tagged("OP2")
     rng = np.random.default_rng(run.seed)
     variants = [dict(endian=e, ib=ib, mtype=mt, label=lab) for e in ("<", ">") for ib in (4, 8) for mt in (1, 2, 3, 4) for lab in (False, True)]
@@ -201,6 +261,8 @@ def run_op2(run):
                 if len([x for x in run.violations if x]) > 6:
                     return
     run.sample({"op2 blocks": files[-1][0], "directory(token idx)": files[-1][2]})
+    if not subsets_part(run, np, op2, res, files, variants, rng, quick):
+        return
     # shipped op2 files: tokenise; directory must tile the file and agree with the token-level block structure
     for f in sorted(glob.glob(os.path.join(REPO, "pyyeti/tests/nastran_op2_data/*.op2"))):
         base = os.path.basename(f)
